@@ -52,6 +52,27 @@ def one(C, drv, L, np, n, rp_extra=None):
             C.issue('not-the-weighted-sum', 'oracle', dict(rp, how='weighted-callable-kinds'), got=float(outk), reference=float(ref))
     except Exception as ex:
         C.issue('weighted-raised', 'oracle', dict(rp, how='weighted-callable-kinds'), error=type(ex).__name__ + ': ' + str(ex)[:80])
+    # the weights (and the components) of an existing object replaced through the public setters: the value follows
+    try:
+        ws2 = [w + 1.5 for w in ws]
+        calls.clear()
+        wf.weights = ws2
+        out2 = wf.pointer(x)
+        ref2 = 0
+        for w, v in zip(ws2, vals):
+            ref2 += w * v
+        if not (float(out2) == float(ref2)):
+            C.issue('not-the-weighted-sum', 'oracle', dict(rp, how='weighted-after-setting-weights', ws2=ws2), got=float(out2), reference=float(ref2))
+        vals2 = [v - 2.0 for v in vals]
+        wf.functions = [L['Function'](pointer=(lambda v_: (lambda z: v_))(v_)) for v_ in vals2]
+        out3 = wf.pointer(x)
+        ref3 = 0
+        for w, v in zip(ws2, vals2):
+            ref3 += w * v
+        if not (float(out3) == float(ref3)):
+            C.issue('not-the-weighted-sum', 'oracle', dict(rp, how='weighted-after-setting-functions'), got=float(out3), reference=float(ref3))
+    except Exception as ex:
+        C.issue('weighted-raised', 'oracle', dict(rp, how='weighted-after-setters'), error=type(ex).__name__ + ': ' + str(ex)[:80])
     # components that return (views of) their argument: the caller's array must come back untouched and every
     # component must see the original argument
     xv = np.array([[C.rng.uniform(-2, 2)] for _ in range(C.rng.randint(1, 3))])
